@@ -213,4 +213,83 @@ theorem fileLoop_lt_of_chunks (lim k : Nat) (ca : Bool) (cur : Option (List α))
     | true => simp at hnot
     | false => simpa using hnot
 
+/-! ### legacy: when the group size divides the file limit, files are closed exactly at the limit -/
+
+/-- every chunk but the last holds exactly `g` rows, the last at most `g` -/
+def FullButLast (g : Nat) : List (List α) → Prop
+  | [] => True
+  | [c] => c.length ≤ g
+  | c :: c' :: rest => c.length = g ∧ FullButLast g (c' :: rest)
+
+theorem chunksOf_nil (g : Nat) (xs : List α) (h : xs.length = 0) : chunksOf g xs = [] := by
+  unfold chunksOf; simp [h]
+
+theorem chunksOf_fullButLast (g : Nat) (xs : List α) : FullButLast g (chunksOf g xs) := by
+  fun_induction chunksOf g xs with
+  | case1 => trivial
+  | case2 => trivial
+  | case3 xs h0 hg ih =>
+    cases hrest : chunksOf g (xs.drop g) with
+    | nil => simp only [FullButLast, List.length_take]; omega
+    | cons c' rest =>
+      rw [hrest] at ih
+      refine ⟨?_, ih⟩
+      simp only [List.length_take]
+      have : (xs.drop g).length ≠ 0 := by
+        intro h; rw [chunksOf_nil g _ h] at hrest; cases hrest
+      simp only [List.length_drop] at this
+      omega
+
+theorem fullButLast_head_le (g : Nat) (c : List α) (rest : List (List α)) (h : FullButLast g (c :: rest)) :
+    c.length ≤ g := by
+  cases rest with
+  | nil => exact h
+  | cons c' r => exact Nat.le_of_eq h.1
+
+theorem fullButLast_tail (g : Nat) (c : List α) (rest : List (List α)) (h : FullButLast g (c :: rest)) :
+    FullButLast g rest := by
+  cases rest with
+  | nil => trivial
+  | cons c' r => exact h.2
+
+theorem dvd_step (g a b : Nat) (ha : g ∣ a) (hb : g ∣ b) (hlt : a < b) : a + g ≤ b := by
+  obtain ⟨x, rfl⟩ := ha
+  obtain ⟨y, rfl⟩ := hb
+  have hxy : x < y := Nat.lt_of_mul_lt_mul_left hlt
+  have : g * (x + 1) ≤ g * y := Nat.mul_le_mul_left g hxy
+  rw [Nat.mul_add, Nat.mul_one] at this
+  exact this
+
+theorem fileLoop_le_of_full (lim g : Nat) (hdvd : g ∣ lim) (ca : Bool) (cur : Option (List α))
+    (ps : List (List α)) (hps : FullButLast g ps)
+    (hcur : g ∣ (curRows cur).length) (hlt : (curRows cur).length < lim) :
+    ∀ f ∈ fileLoop lim ca cur ps, f.length ≤ lim := by
+  fun_induction fileLoop lim ca cur ps with
+  | case1 => simp
+  | case2 f => intro g' hg'; simp at hg'; subst hg'; simp [curRows] at hlt; omega
+  | case3 cur c rest _ ih =>
+    have hc := fullButLast_head_le g c rest hps
+    have hstep := dvd_step g _ lim hcur hdvd hlt
+    intro f hf
+    simp only [List.mem_cons] at hf
+    rcases hf with rfl | hf
+    · simp only [List.length_append]; omega
+    · exact ih (fullButLast_tail g c rest hps) (by simp [curRows]) (by simp [curRows]; omega) f hf
+  | case4 cur c rest hnot ih =>
+    have hopen : (curRows cur ++ c).length < lim := by
+      cases ca with
+      | true => simp at hnot
+      | false => simpa using hnot
+    cases rest with
+    | nil =>
+      intro f hf
+      simp [fileLoop] at hf
+      subst hf
+      omega
+    | cons c' r =>
+      refine ih hps.2 ?_ hopen
+      show g ∣ (curRows cur ++ c).length
+      rw [List.length_append, hps.1]
+      exact Nat.dvd_add hcur (Nat.dvd_refl g)
+
 end LanceModel.C11
